@@ -311,8 +311,69 @@ def worker(batch):
     return out
 
 
+PY_SENTENCES = ['a + b * c\n', 'x = f(a, b)[0]\n', 'if a:\n\tb\nelif c:\n\td\nelse:\n\te\n', 'for i in a:\n\tb = i\n', 'while a < b:\n\tbreak\n',
+                'def f(a: int, b: str = 1) -> None:\n\treturn a if b else c\n', 'g = lambda c, d: c\n', 'x = not a and b or c in d\n', "y = {'k': [1, 2], 'l': (a, b)}\n", 'raise E(a)\n',
+                'a.b.c = d[1:2]\n', 'z = (x := 1)\n', 'f(*a, **b, k=1)\n', 'x = -a\n', 'return\n', 'if a:\n    b\nc\n']
+
+
+def python_trees():
+    """Verdict and tree of every Python sentence under the checked-in py_rules()."""
+    from data.syntax.py_rules import py_rules
+    from rogw.tranp.errors import Errors
+    from rogw.tranp.implements.syntax.tranp.syntax import SyntaxParser
+    p_ = SyntaxParser(py_rules())
+    out = {}
+    for sent in PY_SENTENCES:
+        try:
+            out[sent] = ('ok', p_.parse(sent, 'entry').simplify())
+        except Errors.Syntax:
+            out[sent] = ('syntax-error', None)
+        except Exception as e:  # noqa
+            out[sent] = ('raises', type(e).__name__)
+    return out
+
+
+def compiled_rules_equivalence(ctx, before=None):
+    """The rules compiled from py_gram.lark and the checked-in py_rules() give the same verdict and tree for every
+    sentence; afterwards -- the process has now parsed Python text, keywords and all, with another rule set -- the
+    fixed points must still hold (the order gram -> python -> gram is what a build script does)."""
+    from data.syntax.py_rules import py_rules
+    from rogw.tranp.errors import Errors
+    from rogw.tranp.implements.syntax.tranp.syntax import SyntaxParser
+    n = 0
+    path = os.path.join(REPO, 'data', 'syntax', 'py_gram.lark')
+    with open(path, 'rb') as f:
+        text = f.read().decode('utf-8')
+    try:
+        _, compiled = compile_text(text)
+    except Exception as e:  # noqa
+        ctx.violation(['fixed-point', 'py_gram.lark', 'parse-raises', type(e).__name__], f'py_gram.lark: {type(e).__name__}: {str(e)[:200]}', {'fixed_point': 'py_gram.lark'})
+        return 0
+    pa, pb = SyntaxParser(compiled), SyntaxParser(py_rules())
+    for sent in PY_SENTENCES + [s_.replace('\t', '        ') for s_ in PY_SENTENCES if '\t' in s_]:
+        outs = []
+        for p_ in (pa, pb):
+            try:
+                outs.append(('ok', p_.parse(sent, 'entry').simplify()))
+            except Errors.Syntax:
+                outs.append(('syntax-error', None))
+            except Exception as e:  # noqa
+                outs.append(('raises', type(e).__name__))
+        n += 1
+        if before is not None and sent in before and before[sent] != outs[1]:
+            ctx.violation(['python-tree-depends-on-history'], f'{sent!r}: py_rules() gave {str(before[sent])[:120]} before the grammars were compiled in this process and {str(outs[1])[:120]} afterwards', {'fixed_point': 'py_gram.lark'})
+        if outs[0] != outs[1]:
+            ctx.violation(['compiled-rules-differ', outs[0][0], outs[1][0]], f'{sent!r}: rules compiled from py_gram.lark -> {str(outs[0])[:160]}, py_rules() -> {str(outs[1])[:160]}', {'fixed_point': 'py_gram.lark'})
+        elif outs[0][0] != 'ok':
+            ctx.violation(['shipped-sentence-rejected', outs[0][0]], f'{sent!r} is rejected by both rule sets: {outs[0]}', {'fixed_point': 'py_gram.lark'})
+    return n + fixed_points(ctx)
+
+
 def run(ctx):
+    # order of a build script: parse Python text, compile the grammars, parse again, compile again -- all in one process
+    before = python_trees()
     n_fixed = fixed_points(ctx)
+    n_fixed += compiled_rules_equivalence(ctx, before)
     gs = []
     seen = set()
     for g in grammars(ctx.quick):
@@ -353,7 +414,7 @@ def run(ctx):
     return {
         'evaluations': len(gs) + n_fixed,
         'distinct_nontrivial': ok + n_fixed,
-        'rule': f'fixed points on data/syntax/gram.lark and py_gram.lark (rules equality and rendered rule module byte equality); every grammar text of 1-{"2" if ctx.quick else "3"} rules (+ a terminal rule) whose right-hand sides nest [ ], ( )*, ( )+, ( )?, bare ( ) to depth 2 over sequences and alternatives of symbols and terminals {TERMINALS}, unwrap markers none/[1]/[*]; non-trivial = compiled and round-tripped; texts are distinct; every single-token deletion of the single-rule depth-1 grammars is interleaved (malformed layer); one parser object per worker process is reused for all texts, and after every rejected text it must still compile a canary grammar to hand-written expected rules; every accept/reject verdict is compared with an independent context-free reference recogniser over gram_rules() (mc/oracle/cfg_ref.py); the terminals of the compiled rules are compared with the literals scanned from the text',
+        'rule': f'fixed points on data/syntax/gram.lark and py_gram.lark (rules equality and rendered rule module byte equality), {len(PY_SENTENCES)} Python sentences (tab and 8-space indented) parsed with the rules compiled from py_gram.lark and with py_rules() (same verdict and tree), then the fixed points again in the same process; every grammar text of 1-{"2" if ctx.quick else "3"} rules (+ a terminal rule) whose right-hand sides nest [ ], ( )*, ( )+, ( )?, bare ( ) to depth 2 over sequences and alternatives of symbols and terminals {TERMINALS}, unwrap markers none/[1]/[*]; non-trivial = compiled and round-tripped; texts are distinct; every single-token deletion of the single-rule depth-1 grammars is interleaved (malformed layer); one parser object per worker process is reused for all texts, and after every rejected text it must still compile a canary grammar to hand-written expected rules; every accept/reject verdict is compared with an independent context-free reference recogniser over gram_rules() (mc/oracle/cfg_ref.py); the terminals of the compiled rules are compared with the literals scanned from the text',
         'samples': gs[:2] + gs[len(gs) // 2: len(gs) // 2 + 2] + gs[-1:],
         'rejected_by_meta_grammar': skipped,
         'exhaustive': True,
@@ -363,7 +424,9 @@ def run(ctx):
 
 def replay(ctx, data):
     if 'fixed_point' in data:
+        before = python_trees()
         fixed_points(ctx)
+        compiled_rules_equivalence(ctx, before)
         return
     if data.get('prev') is not None:
         for kind, payload in worker([data['prev']]):
